@@ -856,72 +856,6 @@ func c09StatusWrite(r *Run, rec *ssa.Function, reach map[*ssa.Function]bool, tr 
 	c09Updater(r)
 }
 
-// c09Refreshes reports whether, on every path of fn accepted by onPath, the LastUpdateTime of the
-// condition element is set to the time parameter now: by a store <elem>.LastUpdateTime = now, or by
-// a call to a repository helper that receives the element and now and does so on all its paths
-// (restricted to supportLastUpdate == true when that flag is handed on). n counts the paths looked at.
-func c09Refreshes(r *Run, fn *ssa.Function, isElem func(ssa.Value) bool, now, support *ssa.Parameter, onPath func(*Path) bool, depth int) (all bool, n int) {
-	paths, _, ok := funcPaths(fn, 5000)
-	r.paths += len(paths)
-	if !ok || depth > 3 {
-		return false, 0
-	}
-	all = true
-	for _, p := range paths {
-		if support != nil && p.Has(false, func(v ssa.Value, _ string) bool { return v == ssa.Value(support) }) {
-			continue // supportLastUpdate is false on this path
-		}
-		if onPath != nil && !onPath(p) {
-			continue
-		}
-		n++
-		done := false
-		for _, b := range p.Blocks {
-			for _, in := range b.Instrs {
-				switch x := in.(type) {
-				case *ssa.Store:
-					if fa, isFA := x.Addr.(*ssa.FieldAddr); isFA && fieldName(fa) == "LastUpdateTime" && isElem(fa.X) && (readsParam(x.Val, now) || x.Val == ssa.Value(now)) {
-						done = true
-					}
-				case *ssa.Call:
-					cal := staticCallee(&x.Call)
-					if cal == nil || !r.Prog.IsRuleSite(cal) || len(cal.Blocks) == 0 {
-						continue
-					}
-					var pe, pn, ps *ssa.Parameter
-					okArgs := true
-					for i, a := range x.Call.Args {
-						if i >= len(cal.Params) {
-							break
-						}
-						switch {
-						case isElem(a):
-							pe = cal.Params[i]
-						case readsParam(a, now) || a == ssa.Value(now):
-							pn = cal.Params[i]
-						case support != nil && a == ssa.Value(support):
-							ps = cal.Params[i]
-						}
-					}
-					if pe == nil || pn == nil {
-						continue
-					}
-					// a bool parameter of the helper that is not the handed-on flag could disable the refresh
-					_ = okArgs
-					sub, m := c09Refreshes(r, cal, func(v ssa.Value) bool { return v == ssa.Value(pe) }, pn, ps, nil, depth+1)
-					if sub && m > 0 {
-						done = true
-					}
-				}
-			}
-		}
-		if !done {
-			all = false
-		}
-	}
-	return all, n
-}
-
 // c09Updater checks the condition updater: with supportLastUpdate the stored LastUpdateTime is the
 // `now` argument when the condition exists, and a new condition carries it as LastUpdateTime.
 func c09Updater(r *Run) {
@@ -1033,7 +967,8 @@ func c09Updater(r *Run) {
 		}
 		return isCondPtr(v)
 	}
-	okExist, nExist := c09Refreshes(r, fn, isElem, now, support, exists, 0)
+	eng := &setEngine{r: r, field: "LastUpdateTime", val: now, flagAssume: map[*ssa.Parameter]bool{support: true}}
+	okExist, nExist, _ := eng.check(&vframe{fn: fn}, isElem, exists)
 	r.Check("C09.R6", "updater refreshes LastUpdateTime", r.Prog.Pos(fn.Pos()), shortFunc(fn),
 		"with supportLastUpdate, an existing condition gets LastUpdateTime = now on every path", okExist && nExist > 0, fmt.Sprintf("%d path(s) with an existing condition", nExist))
 	r.Check("C09.R6", "updater creates the condition with now", r.Prog.Pos(fn.Pos()), shortFunc(fn),
